@@ -38,13 +38,34 @@ def canon(v):
     return {"$not-json": type(v).__name__}
 
 
-def observe_instance(o):
+def _try(fn):
+    try:
+        return canon(fn())
+    except Exception as ex:  # noqa
+        return {"$raised": type(ex).__name__}
+
+
+def observe_instance(o, variants=False):
     out = {"ok": True, "type": type(o).__name__}
     try:
         out["tree"] = SI.type_tree(o, B)
         out["dump"] = canon(o.model_dump(by_alias=True, exclude_none=True))
     except Exception as ex:  # noqa
         out["dump_error"] = type(ex).__name__
+        return out
+    if variants:
+        # the other argument combinations the library itself uses at its dump sites, the JSON text
+        # form the stdio writer sends, and a second dump of the same instance (dumping must not
+        # change the instance)
+        out["variants"] = {
+            "plain": _try(lambda: o.model_dump()),
+            "exclude_none": _try(lambda: o.model_dump(exclude_none=True)),
+            "by_alias": _try(lambda: o.model_dump(by_alias=True)),
+            "json": _try(lambda: json.loads(o.model_dump_json(by_alias=True, exclude_none=True))),
+            "json_plain": _try(lambda: json.loads(o.model_dump_json(exclude_none=True))),
+            "mcp": _try(lambda: o.model_dump_mcp(by_alias=True, exclude_none=True)),
+            "again": _try(lambda: o.model_dump(by_alias=True, exclude_none=True)),
+        }
     return out
 
 
@@ -52,11 +73,25 @@ def op_validate(case):
     cls = INDEX.get(case["cls"])
     if cls is None:
         return {"ok": False, "exc": "no-such-class"}
+    wire = copy.deepcopy(case["wire"])
     try:
-        o = cls.model_validate(copy.deepcopy(case["wire"]))
+        o = cls.model_validate(wire)
     except Exception as ex:  # noqa
         return {"ok": False, "exc": type(ex).__name__}
-    return observe_instance(o)
+    if not case.get("forms", True):
+        return observe_instance(o)
+    out = observe_instance(o, variants=True)
+    # REUSE: the caller's dict is not modified by validation, the same dict validates a second time
+    # to the same view, and an instance is accepted as input of its own class
+    out["input_intact"] = (canon(wire) == canon(case["wire"]))
+    try:
+        o2 = cls.model_validate(wire)
+        out["second"] = canon(o2.model_dump(by_alias=True, exclude_none=True))
+        o3 = cls.model_validate(o)
+        out["from_instance"] = canon(o3.model_dump(by_alias=True, exclude_none=True))
+    except Exception as ex:  # noqa
+        out["reuse_error"] = type(ex).__name__
+    return out
 
 
 def op_parse(case):
@@ -68,7 +103,15 @@ def op_parse(case):
         return {"ok": False, "exc": type(ex).__name__}
     if isinstance(o, list):
         return {"ok": True, "type": "list", "items": [observe_instance(x) for x in o]}
-    out = observe_instance(o)
+    out = observe_instance(o, variants=True)
+    # the legacy unified class converts to the specific message classes and back
+    if hasattr(o, "to_specific_type"):
+        def conv():
+            sp = o.to_specific_type()
+            back = type(o).from_specific_type(sp)
+            return {"type": type(sp).__name__, "dump": sp.model_dump(by_alias=True, exclude_none=True),
+                    "back": back.model_dump(by_alias=True, exclude_none=True)}
+        out.setdefault("variants", {})["specific"] = _try(conv)
     # kind by member presence (the legacy unified class is returned for most inputs)
     has = lambda n: getattr(o, n, None) is not None  # noqa: E731
     out["kind"] = (
@@ -247,11 +290,76 @@ def op_helper(case):
     return {"ok": True, "emitted": canon(emitted), "leaks": leaks(typed, emitted)}
 
 
+_CTORS = None
+
+
+def _ctor(module, qual):
+    global _CTORS
+    if _CTORS is None:
+        _CTORS = {}
+        for c in SI.find_constructors(B, IDS):
+            mod = sys.modules[c["module"]]
+            obj = mod
+            for part in c["qual"].split("."):
+                obj = getattr(obj, part)
+            _CTORS[(c["module"], c["qual"])] = obj
+    return _CTORS.get((module, qual))
+
+
+def _instantiate(v):
+    """argument tree -> Python values: {"$model": id, "wire": {...}} becomes an instance"""
+    if isinstance(v, dict):
+        if "$model" in v:
+            return INDEX[v["$model"]].model_validate(copy.deepcopy(v["wire"]))
+        if "$tuple" in v:
+            return tuple(_instantiate(x) for x in v["$tuple"])
+        return {k: _instantiate(x) for k, x in v.items()}
+    if isinstance(v, list):
+        return [_instantiate(x) for x in v]
+    return v
+
+
+def op_construct(case):
+    """a library-side constructor (create_* helper / classmethod) called with generated arguments;
+    twice, with the same argument objects (REUSE)"""
+    import uuid
+
+    fn = _ctor(case["module"], case["qual"])
+    if fn is None:
+        return {"ok": False, "exc": "no-such-constructor"}
+    orig = uuid.uuid4
+    uuid.uuid4 = lambda: uuid.UUID(int=7)
+    try:
+        kwargs = _instantiate(case["kwargs"])
+        try:
+            r = fn(**kwargs)
+        except Exception as ex:  # noqa
+            return {"ok": False, "exc": type(ex).__name__}
+        if isinstance(r, B.McpPydanticBase):
+            out = observe_instance(r, variants=True)
+            try:
+                again = type(r).model_validate(copy.deepcopy(r.model_dump(by_alias=True, exclude_none=True)))
+                out["roundtrip"] = canon(again.model_dump(by_alias=True, exclude_none=True))
+                out["roundtrip_tree"] = SI.type_tree(again, B)
+            except Exception as ex:  # noqa
+                out["roundtrip"] = {"$raised": type(ex).__name__}
+        else:
+            out = {"ok": True, "type": type(r).__name__, "dump": canon(r)}
+        try:
+            r2 = fn(**kwargs)
+            out["second"] = canon(r2.model_dump(by_alias=True, exclude_none=True)) if isinstance(r2, B.McpPydanticBase) else canon(r2)
+        except Exception as ex:  # noqa
+            out["reuse_error"] = type(ex).__name__
+        return out
+    finally:
+        uuid.uuid4 = orig
+
+
 def op_info(_case):
     return {"backend": BACKEND, "classes": len(INDEX)}
 
 
-OPS = {"validate": op_validate, "parse": op_parse, "helper": op_helper, "info": op_info}
+OPS = {"validate": op_validate, "parse": op_parse, "helper": op_helper, "construct": op_construct, "info": op_info}
 
 
 def main():
